@@ -85,6 +85,11 @@ def check_world(cfg, w):
             if mem['total'] != sum(x for kx, x in mem.items()
                                    if kx != 'total'):
                 v.append(('memory-total', f'rank{r}: total {mem["total"]}'))
+            if held.get('other'):
+                v.append(('memory-unreported', f'rank{r}: the layer objects '
+                          f'hold {held["other"]} bytes in tensors that '
+                          f'memory_usage() does not report '
+                          f'({held["other_names"][:3]})'))
             for nm, b in held['per_layer_second_order'].items():
                 isgw = ev['gw'][nm]
                 if (b > 0) != isgw:
